@@ -4,6 +4,7 @@ state.  Model: Model/Request.lean (`getMethodTable`, `getStatusTable` are
 regenerated from the source), Model/Packet.lean.
 -/
 import CoapLite.Lemmas.Request
+import CoapLite.Lemmas.MsgMut
 
 namespace CoapLite.C19
 open CoapLite Spec
@@ -120,7 +121,42 @@ theorem copy_via_trait (src : Packet) (hs : src.options.Sorted)
     d.options.Sorted :=
   Lemmas.copy_via_trait src hs hk
 
+/-! ### `MutableWritableMessage`: in-place writes through the generic interface touch exactly
+the raw state they name -/
+
+/-- `truncate(n)` keeps the first `n` payload bytes and nothing else changes -/
+theorem truncate_spec (p : Packet) (n : Nat) :
+    (MsgView.truncate p n).payload = p.payload.take n ∧
+    (MsgView.truncate p n).payload.length = min n p.payload.length ∧
+    (MsgView.truncate p n).options = p.options ∧ (MsgView.truncate p n).header = p.header ∧
+    (MsgView.truncate p n).token = p.token :=
+  ⟨rfl, List.length_take, rfl, rfl, rfl⟩
+
+/-- `payload_mut_with_len(len)`: the slice handed out has exactly `len` bytes – the old payload's
+prefix, zero-filled beyond it – and what the caller writes through it is the new payload -/
+theorem payload_mut_with_len_spec (p : Packet) (len : Nat) (w : Bytes → Bytes)
+    (hw : ∀ b, (w b).length = b.length) :
+    let q := MsgView.payloadMutWithLen p len w
+    q.payload = w (MsgView.resize0 p.payload len) ∧ q.payload.length = len ∧
+    (∀ i, i < len → (MsgView.resize0 p.payload len)[i]? =
+        some (if h : i < p.payload.length then p.payload[i] else 0)) ∧
+    q.options = p.options ∧ q.header = p.header ∧ q.token = p.token :=
+  Lemmas.payload_mut_with_len_spec p len w hw
+
+/-- `mutate_options(f)`: the callback is invoked exactly once per option value, with the option's
+own number, in the order of the read view; afterwards the read view shows the written values;
+numbers, order, payload and header are untouched -/
+theorem mutate_options_spec (p : Packet) (f : Nat → Bytes → Bytes) (hs : p.options.Sorted) :
+    let q := MsgView.mutateOptions p f
+    MsgView.options q = (MsgView.options p).map (fun o => (o.1, f o.1 o.2)) ∧
+    MsgView.mutateCalls p = MsgView.options p ∧
+    q.options.Sorted ∧ q.payload = p.payload ∧ q.header = p.header ∧ q.token = p.token :=
+  Lemmas.mutate_options_spec p f hs
+
 /-! non-vacuity -/
+example : (MsgView.mutateOptions { Packet.new with options := [(11, [[1, 2], []]), (12, [[50]])] }
+    (fun n v => v.map (· + UInt8.ofNat n))).options = [(11, [[12, 13], []]), (12, [[62]])] := by decide
+example : MsgView.resize0 [1, 2, 3] 5 = [1, 2, 3, 0, 0] ∧ MsgView.resize0 [1, 2, 3] 2 = [1, 2] := by decide
 example : segments "/a//b/".toList = ["a".toList, [], "b".toList, []] := by decide
 example : stripLead "//x".toList = "/x".toList := by decide
 
